@@ -836,6 +836,21 @@ fn finish_only_violations(m: &Module, p: &Prog) -> Vec<String> {
     bad
 }
 
+/// does the program contain a `debug_assert` inside a finish block or a finish function?
+fn dbg_in_finish(p: &Prog) -> bool {
+    fn has_dbg(b: &[S]) -> bool {
+        b.iter().any(|s| matches!(s, S::Dbg { .. }))
+    }
+    fn scan(b: &[S]) -> bool {
+        b.iter().any(|s| match s {
+            S::Fin(body) => has_dbg(body),
+            S::Mat { arms, .. } | S::If { arms, .. } => arms.iter().any(|a| scan(a)),
+            _ => false,
+        })
+    }
+    p.fns.iter().any(|f| f.finish && has_dbg(&f.body)) || scan(&p.policy) || p.recalls.iter().any(|r| scan(r))
+}
+
 // ------------------------------------------------------------------ running
 
 fn default_value(ty: &str) -> Value {
@@ -960,8 +975,11 @@ fn run_program(rec: &mut Recorder, p: &Prog, expect_reject: Option<&'static str>
         match outcome {
             "panic" => {
                 if touched {
+                    // known finding (known_findings.json, key `debug_assert-in-finish`): in debug mode
+                    // `debug_assert` is legal inside finish code and can panic after writes/effects
+                    let marker = if dbg_in_finish(p) { "debug_assert-in-finish: " } else { "" };
                     rec.oracle_fail(format!(
-                        "policy ended in Panic but changed facts (+{added} ~{changed} -{removed}) / emitted {} effect(s)",
+                        "{marker}policy ended in Panic but changed facts (+{added} ~{changed} -{removed}) / emitted {} effect(s)",
                         effects.len()
                     ));
                 }
